@@ -226,6 +226,8 @@ class Engine:
             h = st.heap[v.oid]
             if h.kind in ('list', 'dict'):
                 return len(h.items) > 0
+            if h.kind == 'acc':
+                return (h.items[0] > 0) if isinstance(h.items[0], int) else (zint(h.items[0]) > 0)
             if h.kind == 'bytearray':
                 return self.truth(h.items, st)
             if h.kind == 'obj' and h.cls is not None:
@@ -477,6 +479,12 @@ class Engine:
         if mv is not _MISSING:
             yield st, mv
             return
+        if base is None or is_intlike(base) or is_byteslike(base):
+            # plain python value: an attribute its python type does not have is an AttributeError outcome
+            rep = None if base is None else self.models._py_representative(base)
+            if rep is not _MISSING and not hasattr(rep, attr):
+                sink.append(('raise', st, exc(AttributeError, attr)))
+                return
         raise Unsupported('attribute %s of %r' % (attr, base))
 
     def resolve_field(self, st, ref, attr):
@@ -708,6 +716,8 @@ class Engine:
         if isinstance(a, Ref) or isinstance(b, Ref):
             ha = st.heap[a.oid] if isinstance(a, Ref) else None
             hb = st.heap[b.oid] if isinstance(b, Ref) else None
+            if (ha is not None and ha.kind == 'acc') or (hb is not None and hb.kind == 'acc'):
+                raise Unsupported('== on an accumulator list')
             for v, h, w in ((a, ha, b), (b, hb, a)):
                 if h is not None and h.kind == 'obj' and h.cls is not None:
                     f = h.cls.find_method('__eq__')
@@ -779,6 +789,8 @@ class Engine:
                 return
             elif h.kind == 'bytearray':
                 container = h.items
+            elif h.kind == 'acc':
+                raise Unsupported('membership in an accumulator list')
             else:
                 f = h.cls.find_method('__contains__') if h.cls else None
                 if f is None:
@@ -796,6 +808,14 @@ class Engine:
         if isinstance(container, FrozenDict):
             yield st, item in container.d
             return
+        if isinstance(container, ClassV) and any(getattr(b, '__name__', '') == 'IntEnum' for b in container.info.py_bases()):
+            # `x in <IntEnum class>` (CPython 3.12): true iff x is a member or equals the value of a member
+            if not is_intlike(item):
+                raise Unsupported('membership of a non-integer in an IntEnum class')
+            container = tuple(self.class_attr(c, nm, node) for c in container.info.mro()
+                              for nm, node in c.attr_nodes.items() if not nm.startswith('_'))
+            if not all(isinstance(x, int) for x in container):
+                raise Unsupported('IntEnum class with non-constant members')
         if isinstance(container, (tuple, frozenset, set, list)):
             if _conc(item) and all(_conc(x) for x in container):
                 yield st, item in container
@@ -902,7 +922,7 @@ class Engine:
                     if k == len(items):
                         yield st, acc
                         return
-                    self.assign(g.target, items[k], st, sink_stmt=None)
+                    self.assign(g.target, items[k], st, sink)
                     conds = g.ifs
 
                     def chk(ci, st):
@@ -1019,6 +1039,12 @@ class Engine:
             m = h.cls.find_method('__call__') if h.kind == 'obj' and h.cls else None
             if m is not None:
                 return self.call_function(FuncV(m), [f] + list(args), dict(kwargs), st)
+            gid = getattr(h, 'ghost_id', None)
+            if h.kind == 'obj' and h.cls is None and gid and self.registry is not None:
+                # abstract (native / opaque) callable object: its call is the contract  <class>.__call__
+                hook = self.registry.call_hook(self, gid + '.__call__', st)
+                if hook is not None:
+                    return list(hook(self, st, [f] + list(args), dict(kwargs)))
             mv = self.models.call_object(self, st, f, h, args, kwargs)
             if mv is not _MISSING:
                 return mv
@@ -1080,8 +1106,12 @@ class Engine:
             if a.kwarg is None:
                 return [('raise', st, exc(TypeError, 'unexpected keyword argument'))]
         # defaults are evaluated in the defining module (constants in this code base)
+        dd = getattr(fv, 'def_defaults', None)
         for nm, d in pending:
-            env[nm] = self.eval_default(fi, d)
+            if dd is not None and (d.lineno, d.col_offset) in dd:
+                env[nm] = dd[(d.lineno, d.col_offset)]
+            else:
+                env[nm] = self.eval_default(fi, d)
         if a.kwarg is not None:
             env[a.kwarg.arg] = st.alloc(HObj('dict', items=dict(kwargs)))
         return [('env', st, env)]
@@ -1215,6 +1245,15 @@ class Engine:
         fi = loader.FuncInfo(n, st.frame.module)
         fv = FuncV(fi)
         fv.closure = st.frame.env
+        # default values of a nested def are evaluated once, at definition time, in the defining scope
+        dd = {}
+        for d in list(n.args.defaults) + [k for k in n.args.kw_defaults if k is not None]:
+            dsink = []
+            r = list(self.ev(d, st, dsink))
+            if len(r) != 1 or dsink or r[0][0] is not st:
+                raise Unsupported('default value of nested def %s is not a single value' % n.name)
+            dd[(d.lineno, d.col_offset)] = r[0][1]
+        fv.def_defaults = dd
         st.frame.env[n.name] = fv
         return [('fall', st)]
 
